@@ -97,7 +97,7 @@ def float_oracle(ctx):
     for rep in range(ctx.scale(12, 80)):
         bank = rng.choice(banks)()
         flm = rng.choice([5.0, 6.3, 10.0, 25.0])
-        fsm = rng.choice([1.0, 2.5, flm / 2, flm])
+        fsm = rng.choice([1.0, 2.5, flm / 2, flm, flm, 0.8 * flm])
         style = rng.choice(["causal", "centered"])
         kal = rng.random() < 0.4
         c = compute.STFTFrameComputer(bank, frame_length_ms=flm, frame_shift_ms=fsm, frame_style=style,
@@ -106,9 +106,14 @@ def float_oracle(ctx):
         Lv, Sv = c.frame_length, c.frame_shift
         if not (0 < Sv <= Lv):
             continue
-        for N in [0, Sv // 2, Lv // 2, Lv // 2 + 1, Lv, Lv + Sv + 1, rng.randint(0, 6 * Lv)]:
+        for N in [0, Sv // 2, Lv // 2, Lv // 2 + 1, Lv, Lv + Sv + 1, rng.randint(0, 6 * Lv)] + ([3 * Sv + Lv] if 2 * Lv < 3 * Sv else []):
             dt = rng.choice([np.float64, np.float32])
             x = nprng.randn(N).astype(dt)
+            # the caller's signal may be a view (one channel of an interleaved recording, every second sample, ...):
+            # the whole-signal call and the chunked calls see the same samples
+            layout = rng.choice(stft.LAYOUTS)
+            x = stft.laid_out(x, layout)[0]
+            ctx.count("float_oracle:layout=" + layout)
             full = c.compute_full(x)
             parts = stft.rand_composition(rng, N, rng.choice(["ones", "small", "mix", "big"]) if N < 400 else "mix")
             outs, p = [], 0
@@ -124,7 +129,8 @@ def float_oracle(ctx):
             ok = got.shape == full.shape and (got.dtype == full.dtype or not parts) and np.allclose(got, full, rtol=rtol, atol=atol)
             if not ok:
                 bad.append(dict(bank=type(bank).__name__, frame_length=Lv, frame_shift=Sv, style=style, kaldi_shift=kal,
-                                N=N, chunk_lengths=parts, dtype=str(np.dtype(dt)), got_shape=list(got.shape), full_shape=list(full.shape)))
+                                N=N, chunk_lengths=parts, dtype=str(np.dtype(dt)), got_shape=list(got.shape), full_shape=list(full.shape),
+                                signal_layout=layout))
             fb = compute.frame_by_frame_calculation(c, x, rng.choice([1, 7, Sv, 1024]))
             if not (fb.shape == full.shape and np.allclose(fb, full, rtol=rtol, atol=atol)):
                 bad.append(dict(kind="frame_by_frame_calculation", frame_length=Lv, frame_shift=Sv, style=style, kaldi_shift=kal, N=N))
